@@ -33,8 +33,13 @@ def enum_vals(prog, q):
     return {x["name"]: int(x["v"]) for x in e["enumerators"]}
 
 
+PROG = [None]
+
+
 def sym_pair(xgt, ygt, xst, yst, xgap=X, ygap=Y):
-    return Obj("dialect::SepPair", {"src": 0, "tgt": 1, "xgt": xgt, "ygt": ygt, "xst": xst, "yst": yst, "xgap": xgap, "ygap": ygap,
+    from ..microai.interp import default_obj
+    mk = (lambda c, f: default_obj(PROG[0], c, f)) if PROG[0] is not None else Obj
+    return mk("dialect::SepPair", {"src": 0, "tgt": 1, "xgt": xgt, "ygt": ygt, "xst": xst, "yst": yst, "xgap": xgap, "ygap": ygap,
                                     "tglfPrecision": 3, "flippedRetrieval": False})
 
 
@@ -702,6 +707,7 @@ def rule_tglf(chk, prog):
 
 def run(chk):
     prog = chk.load()
+    PROG[0] = prog
     rule_tglf(chk, prog)
     extracted, TF, GT, ST = rule_transform(chk, prog)
     rule_group(chk, prog, extracted)
